@@ -191,10 +191,12 @@ func (c ColMap[K, V]) Prepare() error {
 
 // Infer ensures Inferable column propagation.
 func (c *ColMap[K, V]) Infer(t ColumnType) error {
-	keytype, valtype, hascomma := strings.Cut(string(t.Elem()), ",")
-	if !hascomma || strings.ContainsRune(valtype, ',') {
+	// Value type can contain commas, e.g. Map(String, DateTime64(3, 'UTC')).
+	elems := splitTypeParams(string(t.Elem()))
+	if len(elems) != 2 {
 		return errors.New("invalid map type")
 	}
+	keytype, valtype := elems[0], elems[1]
 	if v, ok := c.Keys.(Inferable); ok {
 		ct := ColumnType(strings.TrimSpace(keytype))
 		if err := v.Infer(ct); err != nil {
